@@ -952,9 +952,12 @@ func inFlowLayout(context *layoutContext, box_ bo.Box, index int, child_ Box, ne
 				// next page.
 				removePlaceholders(context, []Box{newChild_}, absoluteBoxes, fixedBoxes)
 				newChild_ = nil
-			} else if canBreak && borderPageOverflow {
+			} else if borderPageOverflow && !bo.IsMonolithic(box_) && (canBreak || !contentPageOverflow) {
 				// The child border/padding overflows the page area, do the
 				// layout again with a higher bottomSpace value.
+				// (Also when the child is the first box of the page and its content
+				// fits: its own layout keeps its first content on the page, so
+				// progress is guaranteed.)
 				removePlaceholders(context, []Box{newChild_}, absoluteBoxes, fixedBoxes)
 				bottomSpace += newChild.PaddingBottom.V() + newChild.BorderBottomWidth.V()
 
